@@ -1,5 +1,11 @@
 //! Contains zero pass builder of AVRA-rs
-use std::{cell::RefCell, collections::HashMap, path::PathBuf, rc::Rc, string::ToString};
+use std::{
+    cell::{Cell, RefCell},
+    collections::HashMap,
+    path::PathBuf,
+    rc::Rc,
+    string::ToString,
+};
 
 use crate::{
     context::CommonContext,
@@ -12,6 +18,9 @@ use crate::{
 use crate::instruction::InstructionOps;
 use failure::{bail, Error};
 use maplit::btreeset;
+
+/// How deep macro calls may be nested
+const MAX_MACRO_DEPTH: usize = 64;
 
 #[derive(Clone, PartialEq, Eq, Debug)]
 pub struct BuildResultPass0 {
@@ -32,6 +41,8 @@ impl BuildResultPass0 {
 
 #[derive(Clone, PartialEq, Eq, Debug)]
 pub struct Pass0Context {
+    /// nesting level of macro expansion which is in progress
+    pub macro_depth: Cell<usize>,
     pub current_path: PathBuf,
     pub include_paths: RefCell<Paths>,
     // common context
@@ -82,6 +93,7 @@ pub fn build_pass_0(
     common_context: &CommonContext,
 ) -> Result<BuildResultPass0, Error> {
     let context = Pass0Context {
+        macro_depth: Cell::new(0),
         current_path: PathBuf::new(),
         include_paths: RefCell::new(btreeset! {}),
         common_context: common_context.clone(),
@@ -118,6 +130,14 @@ fn pass0_internal(
         match item {
             Item::Instruction(name, ops) => match name {
                 Operation::Custom(macro_name) => {
+                    if context.macro_depth.get() >= MAX_MACRO_DEPTH {
+                        bail!(
+                            "macro {} is recursive or nested too deep, {}",
+                            macro_name,
+                            line
+                        );
+                    }
+                    context.macro_depth.set(context.macro_depth.get() + 1);
                     let segments = macro_expand(line, macro_name, ops, context, macroses)?;
                     if !segments.is_empty() {
                         let current_segment = context.last_segment().unwrap().borrow().clone();
@@ -144,6 +164,7 @@ fn pass0_internal(
                             }
                         }
                     }
+                    context.macro_depth.set(context.macro_depth.get() - 1);
                 }
                 _ => {
                     context.push_to_last((line.clone(), item.clone()));
